@@ -212,7 +212,8 @@ def run_harness(h, logdir, playback=False):
         cmd += ["-Z", "unstable-options", "--cbmc-args"] + cbmc_args
     with open(log, "w") as lf:
         p = subprocess.Popen(cmd, cwd=cdir, env=ENV, stdout=lf, stderr=subprocess.STDOUT,
-                             preexec_fn=_limits(h.mem_gb * 1.6 + 4))
+                             # the playback run cannot use formula slicing (CBMC needs the full trace): ~2x the memory
+                             preexec_fn=_limits(min(h.mem_gb * 3.2 + 4, 56) if playback else h.mem_gb * 1.6 + 4))
         try:
             rc = p.wait(timeout=h.timeout * (2 if playback else 1))
         except subprocess.TimeoutExpired:
